@@ -183,5 +183,11 @@ def native(script, args=(), timeout=600, env=None):
     if env:
         e.update(env)
     py = os.environ.get("VERIF_NATIVE_PY", "/venv/bin/python")
-    p = subprocess.run([py, script, *args], capture_output=True, text=True, timeout=timeout, env=e, cwd=ROOT)
+    if os.environ.get("VERIF_TIER") == "thorough" or "--thorough" in args:
+        timeout = max(timeout, 5400)
+    try:
+        p = subprocess.run([py, script, *args], capture_output=True, text=True, timeout=timeout, env=e, cwd=ROOT)
+    except subprocess.TimeoutExpired:
+        # neither held nor violated: reported by the callers as a crashed bounded check (checker fault)
+        return 124, "", f"timed out after {timeout} s"
     return p.returncode, p.stdout, p.stderr
